@@ -12,9 +12,9 @@ Lemma post_nofuel {A} (Q : A -> Prop) : post (@nofuel A) Q. Proof. intros s. exa
 Lemma post_panic {A} (Q : A -> Prop) : post (fun _ : pst => @PPanic A) Q. Proof. intros s. exact I. Qed.
 Lemma post_bind {A B} (m : M A) (f : A -> M B) (Q : A -> Prop) (R : B -> Prop) :
   post m Q -> (forall a, Q a -> post (f a) R) -> post (bind m f) R.
-Proof. intros Hm Hf s. unfold bind. specialize (Hm s). destruct (m s) as [a s'| | |]; auto. exact (Hf a Hm s'). Qed.
+Proof. intros Hm Hf s. unfold bind. specialize (Hm s). destruct (m s) as [a s'| | | |]; auto. exact (Hf a Hm s'). Qed.
 Lemma post_bind_any {A B} (m : M A) (f : A -> M B) (R : B -> Prop) : (forall a, post (f a) R) -> post (bind m f) R.
-Proof. intros Hf s. unfold bind. destruct (m s) as [a s'| | |]; auto. exact (Hf a s'). Qed.
+Proof. intros Hf s. unfold bind. destruct (m s) as [a s'| | | |]; auto. exact (Hf a s'). Qed.
 
 (* indices of a message body: distinct, none is 0 *)
 Definition idx_wf {A} (fs : list (N * A)) : Prop := NoDup (map fst fs) /\ ~ In 0%N (map fst fs).
@@ -118,10 +118,10 @@ Qed.
 Theorem read_file_wf input fails f s : read_file input fails = POk f s -> file_wf f.
 Proof.
   intros E. unfold read_file in E.
-  pose proof (top_loop_wf (2 * (length input + 3) + 8)
+  pose proof (top_loop_wf (2 * (length input + margin) + 8)
     {| structs := []; messages := []; enums := []; unions := []; consts := []; imports := []; gopackage := [] |} [] 0%N false false
     ltac:(split; constructor)) as H.
-  specialize (H {| rs := next_results (length input + 3)
+  specialize (H {| rs := next_results (length input + margin)
                       {| buf := {| rest := input; lastByte := None; lastRune := None; failing := fails |}; errs := [] |};
                    cur := tok0; keep := false; perrs := [] |}).
   rewrite E in H. exact H.
